@@ -1,4 +1,4 @@
-import SeaQ.Gen.Types
+import SeaQ.Model.AutoTrait
 /-!
 # C20 — with `thread-safe`, every public type is Send + Sync
 
@@ -10,24 +10,7 @@ with and without the feature); this model explains and localises, and the check 
 prediction with what the compiler reports, type by type.
 -/
 namespace SeaQ.Props.C20
-open SeaQ.Gen.Types
-
-/-- the part of the auto-trait rule that does not depend on other local types -/
-def okLocal (ts : Bool) (n : TypeNode) : Bool :=
-  !n.notSync && !n.otherDyn &&
-  (!n.usesRcOrArc || (if ts then arcUnderFeature else !rcWithoutFeature)) &&
-  (!n.usesDynIden || (if ts then idenBoundsUnderFeature else !idenNoBoundsWithoutFeature))
-
-/-- one round: a type stays Send + Sync iff it is locally fine and everything it mentions is -/
-def step (ts : Bool) (cur : List Bool) : List Bool :=
-  nodes.map (fun n => okLocal ts n && n.refs.all (fun i => cur.getD i false))
-
-def iter (ts : Bool) : Nat → List Bool → List Bool
-  | 0, cur => cur
-  | k+1, cur => iter ts k (step ts cur)
-
-/-- greatest fixpoint (|nodes| rounds suffice: each round only turns `true` into `false`) -/
-def sendSync (ts : Bool) : List Bool := iter ts nodes.length (nodes.map (fun _ => true))
+open SeaQ.Gen.Types SeaQ.AutoTrait
 
 def allTrue : List Bool := nodes.map (fun _ => true)
 
